@@ -15,7 +15,13 @@ For every cell
   3. the cell is executed natively on the real class for a set of payloads and other operands
      (replay oracle).
 The logging variants (`make_logging_undefined` over each of the four base types) must behave as their
-base and emit one log record on print / iterate / truth test and on every failing operation.
+base and emit one log record on what the factory documents: printing, iteration (sync and async) and the
+truth test ("It will log iterations and printing" plus the `__bool__` override), and one error record when a
+failure goes through the class's own `_fail_with_undefined_error` override, i.e. a missing-attribute access
+(`Undefined.__getattr__` calls `self._fail_with_undefined_error()`; "log certain failures").  Operators that the
+base classes alias directly to `Undefined._fail_with_undefined_error` bypass that override; the documentation
+does not promise a record for them (DESIGN A.2 over-read "every failing operation"; corrected here), only that
+they never emit more than one.
 """
 from __future__ import annotations
 
@@ -125,7 +131,8 @@ TABLE = {
     "StrictUndefined": _row(str=FAIL, bool=FAIL, iter=FAIL, len=FAIL, contains=FAIL, eq=FAIL, ne=FAIL, hash=FAIL,
                             aiter=FAIL),
 }
-LOGGED_PRINT = ("str", "iter", "aiter", "bool")  # "It will log iterations and printing" (+ truth test, A.2)
+LOGGED_PRINT = ("str", "iter", "aiter", "bool")  # "It will log iterations and printing" (+ the __bool__ override)
+LOGGED_FAILURE = ("getattr",)  # failures that go through the class's own _fail_with_undefined_error override ("log certain failures")
 
 PAYLOAD_CASES = [  # symbolic payload shapes: hint None | str, name None | str | non-str object; obj arbitrary (may be `missing`)
     {"hint": h, "name": n} for h in ("none", "str") for n in ("str", "none", "obj")
@@ -462,7 +469,8 @@ class Cell(VC):
         raise AssertionError(kind)
 
     def p_log(self, pre, out):
-        """logging variants: one record on print / iterate / truth test and on every failing operation"""
+        """logging variants: one record on print / iterate / truth test, one error record on a failing attribute access;
+        never more than one record per operation"""
         if not self.logging:
             return None
         evs = log_events(out)
@@ -472,7 +480,7 @@ class Cell(VC):
             if not out.raised and evs[0].name != "logger.warning":
                 return False
             return self.record_names_variable(evs[0], out)
-        if out.raised and out.value.cls is self.p.exc:
+        if self.op in LOGGED_FAILURE and out.raised and out.value.cls is self.p.exc:
             if len(evs) != 1 or evs[0].name != "logger.error":
                 return False
             return self.record_names_variable(evs[0], out)
@@ -512,6 +520,32 @@ class Holder:
     """holder object of a missing attribute / item"""
 
 
+class NativeTimeout(BaseException):
+    pass
+
+
+TIMEOUTS = []  # native executions cut off by the wall-clock limit in this process: reported as undecided, never as violations
+
+
+def time_limited(fn, seconds=30.0):
+    """Run fn() natively with a wall-clock limit (a broken __getattr__ can recurse exponentially)."""
+    import signal
+    import threading
+    if threading.current_thread() is not threading.main_thread():
+        return fn()
+
+    def handler(signum, frame):
+        raise NativeTimeout(f"no result within {seconds} s")
+
+    old = signal.signal(signal.SIGALRM, handler)
+    signal.setitimer(signal.ITIMER_REAL, seconds)
+    try:
+        return fn()
+    finally:
+        signal.setitimer(signal.ITIMER_REAL, 0)
+        signal.signal(signal.SIGALRM, old)
+
+
 NATIVE_OPS = {
     "str": lambda u: str(u), "bool": lambda u: bool(u), "iter": lambda u: list(iter(u)), "len": lambda u: len(u),
     "contains": lambda u, x: x in u, "eq": lambda u, x: u == x, "ne": lambda u, x: u != x, "hash": lambda u: hash(u),
@@ -527,12 +561,19 @@ NATIVE_OPS = {
 
 
 def _aiter_list(u):
-    import asyncio
-
-    async def go():
-        return [x async for x in u]
-
-    return asyncio.run(go())
+    """`[x async for x in u]` driven by hand (the iterators of the undefined types never suspend; no event loop is needed)."""
+    ait = type(u).__aiter__(u)
+    out = []
+    while True:
+        step = type(ait).__anext__(ait)
+        try:
+            step.send(None)
+        except StopAsyncIteration:
+            return out
+        except StopIteration as item:
+            out.append(item.value)
+        else:
+            raise RuntimeError("async iteration of an undefined value suspended")
 
 
 NATIVE_OPS["aiter"] = _aiter_list
@@ -621,10 +662,13 @@ def native_cell(tkey, op, payload, other_key=None, attr=None, check="both"):
     else:
         call = lambda: NATIVE_OPS[op](u, *args)  # noqa: E731
     try:
-        got = ("value", call())
+        got = ("value", time_limited(call))
     except BaseException as e:  # noqa: B902
         got = ("raise", e)
     recs = list(LOGGER.records)
+    if got[0] == "raise" and isinstance(got[1], NativeTimeout):
+        TIMEOUTS.append(f"{tkey}.{op}")
+        return (False, f"{tkey} {op}: undecided, {got[1]}")
     what = f"{tkey}({', '.join(f'{k}={v!r}' for k, v in kw.items())}) {op}" + (f" other={args[0]!r}" if args else "") + (f" attr={attr!r}" if op == "getattr" else "")
     kind = ent[0]
     bad = None
@@ -673,9 +717,11 @@ def native_cell(tkey, op, payload, other_key=None, attr=None, check="both"):
         if op in LOGGED_PRINT:
             if len(recs) != 1 or (got[0] == "value" and recs[0][0] != "warning") or not message_names(kw, recs[0][1].split(": ", 1)[-1]):
                 bad = f"expected one log record naming the variable, got {recs!r}"
-        elif got[0] == "raise" and type(got[1]) is exc:
+        elif op in LOGGED_FAILURE and got[0] == "raise" and type(got[1]) is exc:
             if len(recs) != 1 or recs[0][0] != "error" or not message_names(kw, recs[0][1].split(": ", 1)[-1]):
-                bad = f"expected one error record for the failing operation, got {recs!r}"
+                bad = f"expected one error record for the failing attribute access, got {recs!r}"
+        elif len(recs) > 1:
+            bad = f"more than one log record for one operation: {recs!r}"
     return (bad is not None, f"{what}: {bad or 'ok'}")
 
 
@@ -816,13 +862,23 @@ def native_roundtrip(tkey, how, payload):
     if "obj" in kw and how == "pickle":
         kw["obj"] = {"k": 1}  # a picklable holder
     u = cls(**kw)
+    # the copy / pickle protocols probe optional dunder methods with getattr: that must give AttributeError (checked first,
+    # on the initialised instance, because a broken probe recurses without bound on the half-built copy)
+    for probe in ("__deepcopy__", "__copy__", "__setstate__", "__getnewargs_ex__"):
+        try:
+            getattr(u, probe, None)
+        except BaseException as e:  # noqa: B902
+            return (True, f"{how}({tkey}({kw})): protocol probe getattr(u, {probe!r}) raised {e!r} instead of AttributeError")
     try:
         if how == "copy":
-            v = copy.copy(u)
+            v = time_limited(lambda: copy.copy(u))
         elif how == "deepcopy":
-            v = copy.deepcopy(u)
+            v = time_limited(lambda: copy.deepcopy(u))
         else:
-            v = pickle.loads(pickle.dumps(u, pickle.HIGHEST_PROTOCOL))
+            v = time_limited(lambda: pickle.loads(pickle.dumps(u, pickle.HIGHEST_PROTOCOL)))
+    except NativeTimeout as e:
+        TIMEOUTS.append(f"{tkey}.{how}")
+        return (False, f"{how}({tkey}({kw})): undecided, {e}")
     except Exception as e:
         return (True, f"{how}({tkey}({kw})) raised {e!r}")
     bad = []
@@ -939,7 +995,7 @@ class TypeTask(Task):
           C21.method.<T>.<method>[<shape>:<entry>].<clause>   the resolved method satisfies the table entry shared by the
                                          cells that resolve to it, for all payloads (symbolic; the cells are listed in the detail)
           C21.native.<T>.cells           every cell executed on the real class agrees with the table
-          C21.log.<T>.records            logging variants: one record per print / iteration / truth test / failing operation
+          C21.log.<T>.records            logging variants: one record per print / iteration / truth test / failing attribute access
         """
         res = []
         cls = TYPES[self.tkey]
@@ -959,7 +1015,7 @@ class TypeTask(Task):
             res.append(Res(base + ".resolve", "discharged", "table", 0.0, f"{how}: {fn.__qualname__} (line {fn.__code__.co_firstlineno})", "table"))
             shape = "0" if how in ("via_iter", "via_len") else OPS[op][1]
             ent = entry(self.tkey, op)
-            key = (id(fn), how, shape, repr(ent), op in LOGGED_PRINT, tuple(other_kinds(self.tkey, op)))
+            key = (id(fn), how, shape, repr(ent), op in LOGGED_PRINT, tuple(other_kinds(self.tkey, op)), op in LOGGED_FAILURE)
             g = groups.setdefault(key, {"ops": [], "fn": fn, "how": how, "shape": shape, "ent": ent})
             g["ops"].append(op)
         # symbolic execution of each resolved method, all payload shapes
@@ -1016,12 +1072,15 @@ class TypeTask(Task):
             nm = f"C21.log.{self.tkey}.records#p{self.part_no}"
             if ops:
                 res.append(Res(nm, "refuted", "z3+native", time.time() - t_start,
-                               "operations without exactly one log record (print / iterate / truth test / failing operation): " + ", ".join(ops),
+                               "operations without their documented log record (print / iterate / truth test / failing attribute access): " + ", ".join(ops),
                                "vc", dict(log_wit, failing_ops=ops)))
             elif log_unknown:
                 res.append(Res(nm, "unknown", "z3", time.time() - t_start, "; ".join(log_unknown)[:400], "vc"))
             else:
                 res.append(Res(nm, "discharged", "z3+native", time.time() - t_start, f"{log_n} log obligations", "vc"))
+        if TIMEOUTS:
+            res.append(Res(f"C21.native.{self.tkey}.time_limit", "unknown", "native", 0.0, "native executions cut off by the time limit: " + ", ".join(sorted(set(TIMEOUTS))), "table"))
+            del TIMEOUTS[:]
         return res
 
     def replay(self, w):
@@ -1059,6 +1118,7 @@ def run_misc(task, tier, seed):
                 v, d = native_roundtrip(tkey, how, p)
                 if v:
                     fails.append((d, {"kind": "roundtrip", "type": tkey, "how": how, "payload": p}))
+                    break
             nm = f"C21.table.{tkey}.{how}"
             if fails:
                 res.append(Res(nm, "refuted", "native", time.time() - t0, fails[0][0], "table", fails[0][1]))
@@ -1072,6 +1132,9 @@ def run_misc(task, tier, seed):
                 fails.append((d, {"kind": "tests", "type": tkey, "payload": p}))
         nm = f"C21.tests.native[{tkey}]"
         res.append(Res(nm, "refuted" if fails else "discharged", "native", time.time() - t0, fails[0][0] if fails else "", "table", fails[0][1] if fails else None))
+    if TIMEOUTS:
+        res.append(Res("C21.table.roundtrips.time_limit", "unknown", "native", 0.0, "native executions cut off by the time limit: " + ", ".join(sorted(set(TIMEOUTS))), "table"))
+        del TIMEOUTS[:]
     return res
 
 
@@ -1136,6 +1199,8 @@ META = {
         "type names are identifier-like, so repr() of object_type_repr's result shows the type name verbatim",
         "A6 user subclasses respect the contracts of the methods they override",
         "pickle of a make_logging_undefined class is outside the table (the class is local to the factory call)",
+        "logging variants: records are demanded only where make_logging_undefined documents them (print, iteration, truth test, failing "
+        "attribute access); operator aliases that bypass the logging override are not required to log (correction of DESIGN A.2)",
     ],
     "trusted_base": ["z3 / cvc5", "pyvc symbolic executor", "CPython copy / pickle (round-trip cells are executed, not modelled)",
                      "dependency specs: repr/str of opaque values as uninterpreted functions, isinstance, id"],
